@@ -53,3 +53,112 @@ Theorem old_verbatim_step_diverges :
   let '(ws, rs, hf) := f_enc_run_old (repeat 0 4) w_steps in
   exists rs' hf', f_dec_run_old (repeat 0 4) ws = Some (rs', hf') /\ rs' <> rs /\ hf' <> hf.
 Proof. vm_compute. eexists; eexists; split; [reflexivity|]. split; intro H; discriminate H. Qed.
+
+(* ---- value-range protection on the handed-out values: the clamp loop of the two decompression entries ---- *)
+From Coq Require Import Reals Lra.
+From Flocq Require Import Core.Core IEEE754.BinarySingleNaN IEEE754.Binary IEEE754.Bits.
+Require Import SZV.Model.Clamp SZV.Proofs.Clamp_proofs.
+
+Section MinMax.
+  Variable prec emax : Z.
+  Context (prec_gt_0_ : FLX.Prec_gt_0 prec).
+  Context (prec_lt_emax_ : Prec_lt_emax prec emax).
+  Notation bf := (binary_float prec emax).
+  Notation fin := (is_finite prec emax).
+  Notation R_ := (B2R prec emax).
+  (* the scan of computeRangeSize_*: running minimum and maximum *)
+  Fixpoint gminmax (mn mx:bf) (l:list bf) : bf * bf :=
+    match l with
+    | [] => (mn, mx)
+    | x :: l' => if blt prec emax x mn then gminmax x mx l' else if blt prec emax mx x then gminmax mn x l' else gminmax mn mx l'
+    end.
+  Lemma gminmax_bounds l : forall mn mx, fin mn = true -> fin mx = true -> (R_ mn <= R_ mx)%R -> Forall (fun x => fin x = true) l ->
+    let '(a, b) := gminmax mn mx l in
+    fin a = true /\ fin b = true /\ (R_ a <= R_ mn)%R /\ (R_ mx <= R_ b)%R /\ Forall (fun x => (R_ a <= R_ x <= R_ b)%R) l.
+  Proof.
+    induction l as [|x l IH]; intros mn mx Fn Fx Hm Fl; cbn [gminmax].
+    - repeat split; auto; lra.
+    - inversion Fl as [|? ? Fx0 Fl']; subst.
+      destruct (blt prec emax x mn) eqn:B1.
+      + apply blt_spec in B1; auto. specialize (IH x mx Fx0 Fx ltac:(lra) Fl'). destruct (gminmax x mx l) as [a b].
+        destruct IH as (Fa & Fb & H1 & H2 & H3). repeat split; auto; try lra. constructor; [|exact H3]. lra.
+      + assert (N1 : (R_ mn <= R_ x)%R).
+        { destruct (Rle_or_lt (R_ mn) (R_ x)) as [H|H]; [exact H|]. apply (blt_spec prec emax x mn Fx0 Fn) in H. congruence. }
+        destruct (blt prec emax mx x) eqn:B2.
+        * apply blt_spec in B2; auto. specialize (IH mn x Fn Fx0 ltac:(lra) Fl'). destruct (gminmax mn x l) as [a b].
+          destruct IH as (Fa & Fb & H1 & H2 & H3). repeat split; auto; try lra. constructor; [|exact H3]. lra.
+        * assert (N2 : (R_ x <= R_ mx)%R).
+          { destruct (Rle_or_lt (R_ x) (R_ mx)) as [H|H]; [exact H|]. apply (blt_spec prec emax mx x Fx Fx0) in H. congruence. }
+          specialize (IH mn mx Fn Fx Hm Fl'). destruct (gminmax mn mx l) as [a b].
+          destruct IH as (Fa & Fb & H1 & H2 & H3). repeat split; auto. constructor; [|exact H3]. lra.
+  Qed.
+
+  (* clamping a reconstruction to the data's own [min, max] never moves it away from any element of the data *)
+  Theorem clamp_to_data_closer x0 rest x v : Forall (fun y => fin y = true) (x0 :: rest) -> In x (x0 :: rest) -> fin v = true ->
+    let '(mn, mx) := gminmax x0 x0 rest in
+    (Rabs (R_ x - R_ (gclamp prec emax mn mx v)) <= Rabs (R_ x - R_ v))%R.
+  Proof.
+    intros Fl Hi Fv. inversion Fl as [|? ? F0 Fr]; subst.
+    pose proof (gminmax_bounds rest x0 x0 F0 F0 ltac:(lra) Fr) as B. destruct (gminmax x0 x0 rest) as [mn mx].
+    destruct B as (Fa & Fb & H1 & H2 & H3).
+    assert (Fxx : fin x = true) by (rewrite Forall_forall in Fl; apply Fl, Hi).
+    assert (Rg : (R_ mn <= R_ x <= R_ mx)%R).
+    { destruct Hi as [E|Hi]; [subst; lra|]. rewrite Forall_forall in H3. apply H3, Hi. }
+    apply gclamp_closer; auto; apply ble_spec; auto; lra.
+  Qed.
+End MinMax.
+
+(* the model's scans are the generic one *)
+Lemma dminmax_is_gminmax l : forall mn mx, dminmax mn mx l = gminmax 53 1024 mn mx (map D l).
+Proof. induction l as [|x l IH]; intros mn mx; cbn [dminmax gminmax map]; [reflexivity|].
+  change (dgt mn (D x)) with (blt 53 1024 (D x) mn). change (dlt mx (D x)) with (blt 53 1024 mx (D x)).
+  destruct (blt 53 1024 (D x) mn); [apply IH|]. destruct (blt 53 1024 mx (D x)); apply IH. Qed.
+Lemma fminmax_is_gminmax l : forall mn mx, fminmax mn mx l = gminmax 24 128 mn mx (map F l).
+Proof. induction l as [|x l IH]; intros mn mx; cbn [fminmax gminmax map]; [reflexivity|].
+  change (fgt mn (F x)) with (blt 24 128 (F x) mn). change (flt mx (F x)) with (blt 24 128 mx (F x)).
+  destruct (blt 24 128 (F x) mn); [apply IH|]. destruct (blt 24 128 mx (F x)); apply IH. Qed.
+
+Lemma D_Db (y:f64) : D (Db y) = y.
+Proof.
+  unfold D, Db, bits_of_b64, b64_of_bits. rewrite Z.mod_small.
+  - exact (binary_float_of_bits_of_binary_float 52 11 eq_refl eq_refl eq_refl y).
+  - apply (bits_of_binary_float_range 52 11); reflexivity.
+Qed.
+Lemma F_Fb (y:f32) : F (Fb y) = y.
+Proof.
+  unfold F, Fb, bits_of_b32, b32_of_bits. rewrite Z.mod_small.
+  - exact (binary_float_of_bits_of_binary_float 23 8 eq_refl eq_refl eq_refl y).
+  - apply (bits_of_binary_float_range 23 8); reflexivity.
+Qed.
+
+(* every value handed out under value-range protection is at least as close to the original as the reconstruction kept in the
+   history (whose distance the step theorems bound): double and float *)
+Theorem d_out1_closer data x r : Forall (fun y => is_finite 53 1024 (D y) = true) data -> In x data -> is_finite 53 1024 (D r) = true ->
+  forall r', In r' (d_out1 data [r]) ->
+  (Rabs (B2R 53 1024 (D x) - B2R 53 1024 (D r')) <= Rabs (B2R 53 1024 (D x) - B2R 53 1024 (D r)))%R.
+Proof.
+  intros Fl Hi Fr r' Hr'. destruct data as [|x0 rest]; [contradiction|]. cbn [d_out1] in Hr'.
+  rewrite dminmax_is_gminmax in Hr'.
+  assert (Fl' : Forall (fun y => is_finite 53 1024 y = true) (D x0 :: map D rest)).
+  { change (D x0 :: map D rest) with (map D (x0 :: rest)). rewrite Forall_map. exact Fl. }
+  assert (Hi' : In (D x) (D x0 :: map D rest)).
+  { change (D x0 :: map D rest) with (map D (x0 :: rest)). apply in_map, Hi. }
+  pose proof (clamp_to_data_closer 53 1024 (D x0) (map D rest) (D x) (D r) Fl' Hi' Fr) as C.
+  destruct (gminmax 53 1024 (D x0) (D x0) (map D rest)) as [mn mx]. cbn [map In] in Hr'. destruct Hr' as [E|[]]. subst r'.
+  rewrite D_Db, clamp64_is_gclamp. exact C.
+Qed.
+
+Theorem f_out1_closer data x r : Forall (fun y => is_finite 24 128 (F y) = true) data -> In x data -> is_finite 24 128 (F r) = true ->
+  forall r', In r' (f_out1 data [r]) ->
+  (Rabs (B2R 24 128 (F x) - B2R 24 128 (F r')) <= Rabs (B2R 24 128 (F x) - B2R 24 128 (F r)))%R.
+Proof.
+  intros Fl Hi Fr r' Hr'. destruct data as [|x0 rest]; [contradiction|]. cbn [f_out1] in Hr'.
+  rewrite fminmax_is_gminmax in Hr'.
+  assert (Fl' : Forall (fun y => is_finite 24 128 y = true) (F x0 :: map F rest)).
+  { change (F x0 :: map F rest) with (map F (x0 :: rest)). rewrite Forall_map. exact Fl. }
+  assert (Hi' : In (F x) (F x0 :: map F rest)).
+  { change (F x0 :: map F rest) with (map F (x0 :: rest)). apply in_map, Hi. }
+  pose proof (clamp_to_data_closer 24 128 (F x0) (map F rest) (F x) (F r) Fl' Hi' Fr) as C.
+  destruct (gminmax 24 128 (F x0) (F x0) (map F rest)) as [mn mx]. cbn [map In] in Hr'. destruct Hr' as [E|[]]. subst r'.
+  rewrite F_Fb, clamp32_is_gclamp. exact C.
+Qed.
